@@ -1,6 +1,7 @@
 # C14 -- no datagram or capture content can crash the tools.
 
 import ast
+import re
 from pyfront import clone as _clone
 import os
 
@@ -63,7 +64,14 @@ def r1_parser(L, repo):
                 L.ob("C14.R1", F, a.func, "%s, version %d: %s is inside the length proven by the guards" % (cls, v, a.what),
                      a.need, a.have, a.ok, a.node.lineno)
             if v not in known:
-                deep = [a for a in acc if not a.what.startswith("msg[0]") and "[0]" not in a.what]
+                # octets of the common header (version + TN, frame number) are the same in every version: reading them
+                # before the version test is harmless; what must not be read are octets behind the common header
+                chl = Ev(repo, ci.mod, self_cls=ci).ev(ast.parse("self.CHDR_LEN", mode="eval").body)
+                def need_of(a_):
+                    m_ = re.match(r"len >= (\d+)", str(a_.need))
+                    return int(m_.group(1)) if m_ else None
+                deep = [a for a in acc if not (need_of(a) is not None and isinstance(chl, int) and need_of(a) <= chl)
+                        and not a.what.startswith("msg[0]") and "[0]" not in a.what]
                 L.ob("C14.R1", F, cls + ".parse_msg", "%s: unknown version %d is rejected before any version-specific field is read" % (cls, v),
                      [], [a.what for a in deep], not deep)
             # HDR_LEN must fold (not raise IndexError) for every known version
